@@ -132,6 +132,116 @@ class MasterGen:
     def tree(self):
         return self.objs(self.depth)
 
+    def extension(self, nodes):
+        """A plug-in extension of a master that is applied IN PLACE with scope.adopt_scope() (what
+        freephil.interface.index.adopt_phil() does): new parameters / new sub-scopes declared inside existing active scopes
+        (any .multiple/.optional combination, the root included) and re-declarations of existing parameters (other type /
+        attributes / default).  Returns (tree2, text, tags): the master tree after the extension, the plug-in's text and
+        what was touched (for the distribution counts).
+
+        adopt_scope() merges by full path down to the second level only (a re-declared object below `s.t` is appended as
+        a duplicate sibling, which makes the master ill-formed), so new objects go into scopes of path length <= 2 and
+        re-declarations replace parameters of path length <= 2; the caller still checks that the extended master object
+        has the structure of render_master(tree2)."""
+        import copy
+        r = self.rng
+        tree2 = copy.deepcopy(nodes)
+
+        def freeze(ns):
+            for n in ns:
+                if n["k"] == "s":
+                    if n.get("dis_further"):
+                        n["dis_further"] = {"frozen": copy.deepcopy(dis_example(n))}
+                    freeze(n["kids"])
+        freeze(tree2)
+
+        targets = []        # (path, kids list, inside a .multiple scope, kind of the enclosing scopes)
+
+        def walk(ns, path, in_multiple, kind):
+            targets.append((path, ns, in_multiple, kind))
+            if len(path) >= 2:
+                return
+            for n in ns:
+                if n["k"] == "s" and not n["dis"]:
+                    k = kind
+                    if n["multiple"]:
+                        k = "mandatory_multiple" if n["optional"] is False or kind == "mandatory_multiple" else "multiple"
+                    walk(n["kids"], path + (n["name"],), in_multiple or n["multiple"], k)
+        walk(tree2, (), False, "plain")
+        tags = []
+        edits = []          # (path, [nodes written inside that scope])
+        fresh_d = ["p1", "p2", "k_new", "w9"]
+        fresh_s = ["plug", "more"]
+        saved = self.further
+        self.further = False        # a repeated new name inside one plug-in is a re-declaration, not a further instance
+        try:
+            def edit(path, kids, in_multiple, kind):
+                new = []
+                taken = {k["name"] for k in kids}
+                for _ in range(r.choice([1, 1, 2])):
+                    k = r.random()
+                    if k < 0.65:
+                        nm = r.choice(fresh_d)
+                        if nm in taken:
+                            continue
+                        node = self.defn(nm, in_multiple)
+                        kids.append(node)
+                    elif k < 0.8:
+                        nm = r.choice(fresh_s)
+                        if nm in taken:
+                            continue
+                        node = self.scope(nm, 1, in_multiple)
+                        node.pop("reopen", None)
+                        kids.append(node)
+                    else:
+                        # re-declaration of an existing parameter that is written once (replaced where it stands)
+                        old = [i for i, c in enumerate(kids) if c["k"] == "d" and not c["dis"] and not c["further"]
+                               and not c.get("dis_further") and not c.get("redeclared")
+                               and c["name"] not in [x["name"] for x in new]]
+                        if not old or len(path) > 1:
+                            continue
+                        i = r.choice(old)
+                        nm = kids[i]["name"]
+                        node = self.defn(nm, in_multiple)
+                        kids[i] = node
+                        # the replacing parameter still belongs to its plug-in (adopt_scope() does not update its
+                        # primary_parent_scope) and adopt_scope() replaces inside the primary parent: a second
+                        # re-declaration would not reach the master.  One re-declaration per parameter.
+                        node["redeclared"] = True
+                        tags.append("redeclared_in_" + kind)
+                    node["dis"] = False
+                    node.pop("dis_further", None)       # adopt_scope() takes the plug-in's active objects only
+                    taken.add(nm)
+                    new.append(node)
+                if new:
+                    edits.append((path, new))
+                    tags.append("into_" + kind)
+
+            for t in targets:
+                if r.random() < (0.6 if t[0] else 0.4):
+                    edit(*t)
+            for _ in range(3):
+                if edits:
+                    break
+                edit(*r.choice(targets))     # nothing drawn: one scope, with certainty
+        finally:
+            self.further = saved
+        text = ""
+        for path, new in edits:
+            body = render_master(copy.deepcopy(new), "  " * len(path) if path else "")
+            if not path:
+                text += body
+            elif r.random() < 0.5:
+                # nested spelling
+                for i, c in enumerate(path):
+                    text += "  " * i + c + " {\n"
+                text += body
+                for i in reversed(range(len(path))):
+                    text += "  " * i + "}\n"
+            else:
+                text += ".".join(path) + " {\n" + body + "}\n"
+        return tree2, text, tags
+
 
 def attr_lines(node, indent):
     s = ""
@@ -150,6 +260,13 @@ def attr_lines(node, indent):
     elif node.get("deprecated_false"):
         s += "%s  .deprecated = %s\n" % (indent, node["deprecated_false"])      # spelt out, still not deprecated
     return s
+
+
+def dis_example(n):
+    """content of the commented-out example instance written after a .multiple scope: its first two parameters, or the
+    list frozen by MasterGen.extension (a master extended in place keeps the example block it was parsed with)"""
+    df = n.get("dis_further")
+    return df["frozen"] if isinstance(df, dict) else [k for k in n["kids"] if k["k"] == "d"][:2]
 
 
 def render_master(nodes, indent=""):
@@ -178,7 +295,7 @@ def render_master(nodes, indent=""):
             s += "%s}\n" % indent
             if n.get("dis_further"):
                 s += "%s!%s {\n" % (indent, n["name"])
-                s += render_master([k for k in n["kids"] if k["k"] == "d"][:2], indent + "  ")
+                s += render_master(dis_example(n), indent + "  ")
                 s += "%s}\n" % indent
     return s
 
